@@ -7,8 +7,8 @@
 //                registers it in a live table, fini() looks the serial up (the library relocates
 //                elements bitwise, so identity is the serial, not the address); init() can be told
 //                to fail by the explorer (<= 2 injected failures per history)
-//        finionly  harness traits {0,fini,16} (shape of reference_array's traits): elements are handed over bytewise by the
-//                caller, an all-zero slot is the valid empty value; such content can not be copy-constructed
+//        finionly  harness traits {0,fini,16} (shape of reference_array's traits): such content can not be copy-constructed;
+//                elements are constructed in place after insert/append, an all-zero slot is the valid empty value
 //        array / meta / ident / conf / cmd   the library's own managed element types
 //                (mpt_array_traits, mpt_meta_reference_traits, mpt_identifier_traits,
 //                mpt_config_item_traits, mpt_command_traits) holding counting tokens / long names;
@@ -105,7 +105,7 @@ static void fini16(void *p) { elem_fini(p, 0); }
 static void fini8(void *p) { elem_fini(p, 2); }
 static int init32(void *p, const void *s) { return elem_init(p, s, 4); }
 // element type with a finaliser only (shape of reference_array's traits): an all-zero slot is the valid empty value,
-// elements are created by the caller and handed over bytewise (mpt_array_set with data = transfer of ownership)
+// elements are constructed in place by the caller after insert/append; the type cannot be copied
 static void finiF(void *p)
 {
 	static const uint8_t zero[16] = { 0 };
@@ -215,7 +215,7 @@ struct BSys {
 			for (int p : {P0, P1, PEND, PPAST, PLAST}) for (int c = 1; c <= 2; ++c) for (int d = 1; d >= 0; --d) ops.push_back(OpDef{SET, h, p, c, d});
 			for (int p : {P0, PEND}) ops.push_back(OpDef{BSET, h, p, 1, 1});
 			// source elements inside the target array: shift down (overlapping), append a copy of the first, self assignment, disjoint
-			if (kind != K_FINI) for (int shape = 0; shape < 4; ++shape) ops.push_back(OpDef{SETOWN, h, shape, 0, 0});
+			for (int shape = 0; shape < 4; ++shape) ops.push_back(OpDef{SETOWN, h, shape, 0, 0});
 			for (int p : {P0, P1, PEND, PPAST}) for (int c = 1; c <= 2; ++c) ops.push_back(OpDef{INS, h, p, c, 0});
 			for (auto pc : {std::make_pair(P0, 1), std::make_pair(P1, 1), std::make_pair(PBEFORE, 1), std::make_pair(P0, 2), std::make_pair(P1, 0), std::make_pair(P0, 0), std::make_pair(PEND, 1)}) ops.push_back(OpDef{CUT, h, pc.first, pc.second, 0});
 			for (int n : {0, 1, 2}) for (int t = 0; t < (kind == K_SERIAL && full ? 5 : 3); ++t) ops.push_back(OpDef{RESERVE, h, n, t, 0});     // n: 0 elements / current / capacity+1 ; t: same / other / untyped / compatible (same finaliser+size) / same finaliser, other size
@@ -272,6 +272,7 @@ struct BSys {
 		g_owner = 1;
 		switch (kind) {
 		case K_SERIAL: elem_init(src, 0, 0); elem_init(src + 16, 0, 0); break;
+		case K_FINI: elem_init(src, 0, 3); elem_init(src + 16, 0, 3); break;
 		case K_ARR: ((mpt::buffer **) src)[0] = cb[0]; ((mpt::buffer **) src)[1] = cb[1]; break;
 		case K_META: ((mpt::metatype **) src)[0] = cm[0]; ((mpt::metatype **) src)[1] = cm[1]; break;
 		case K_IDENT: for (int i = 0; i < 2; ++i) { mpt::identifier *id = (mpt::identifier *) (src + i * ks); mpt::mpt_identifier_init(id, ks); mpt::mpt_identifier_set(id, i ? "short" : LONGNAME, -1); } break;
@@ -289,6 +290,7 @@ struct BSys {
 		NoLib nl;
 		switch (kind) {
 		case K_SERIAL: elem_fini(src, 0); elem_fini(src + 16, 0); break;
+		case K_FINI: elem_fini(src, 3); elem_fini(src + 16, 3); break;
 		case K_CMD: g_recs[0]->finalised++; break;    // the source command is the harness' own: it is never handed to the library as an element
 		default: break;
 		}
@@ -297,27 +299,17 @@ struct BSys {
 		cb[0]->unref(); cb[1]->unref(); cm[0]->unref(); cm[1]->unref();
 		free(src); src = 0;
 	}
-	// exactly sized block of n source elements for mpt_array_set/mpt_buffer_set.  Usually a bytewise copy of the harness' own
-	// source elements (they stay the harness' own, the library has to copy-construct); for the finaliser-only kind fresh
-	// elements whose ownership passes to the buffer when the call succeeds
+	// exactly sized block of n source elements for mpt_array_set/mpt_buffer_set: a bytewise copy of the harness' own source
+	// elements (they stay the harness' own: the library has to copy-construct them, or - for the finaliser-only kind, which
+	// cannot be copied - to refuse; its elements get into a buffer by insert + construction in place only)
 	uint8_t *make_data(int n)
 	{
 		NoLib nl;
 		uint8_t *data = (uint8_t *) malloc(n * ks);
-		if (kind != K_FINI) { memcpy(data, src, n * ks); return data; }
-		bool a = g_active; g_active = false; g_owner = 0;
-		for (int i = 0; i < n; ++i) elem_init(data + i * ks, 0, 3);
-		g_active = a;
+		memcpy(data, src, n * ks);
 		return data;
 	}
-	void settle_data(uint8_t *data, int n, bool accepted)
-	{
-		NoLib nl;
-		bool a = g_active; g_active = false;
-		if (kind == K_FINI && !accepted) for (int i = 0; i < n; ++i) elem_fini(data + i * ks, 3);
-		g_active = a;
-		free(data);
-	}
+	void settle_data(uint8_t *data, int, bool) { NoLib nl; free(data); }
 	// construct elements in a region the library handed out uninitialised (insert / append)
 	void construct(const mpt::type_traits *t, void *ptr, size_t bytes, int first)
 	{
@@ -389,7 +381,12 @@ struct BSys {
 	{
 		g_active = true;
 		if (flags >= 0) { hb[h] = LIB(mpt::_mpt_buffer_alloc(n * ks, flags)); hb[h]->_content_traits = KT; }
-		for (int i = 0; i < n; ++i) {
+		if (kind == K_FINI && flags < 0 && !hb[h]) LIB(mpt::mpt_array_reserve(H(h), ks, KT));   // mpt_array_insert on an empty array would make a raw buffer
+		for (int i = 0; i < n && kind == K_FINI; ++i) {
+			void *at = flags >= 0 ? LIB(mpt::mpt_buffer_insert(hb[h], i * ks, ks)) : LIB(mpt::mpt_array_insert(H(h), i * ks, ks));
+			g_active = false; construct(KT, at, ks, i); g_active = true;
+		}
+		for (int i = 0; i < n && kind != K_FINI; ++i) {
 			uint8_t *d = (i & 1) ? 0 : make_data(1);
 			bool ok;
 			if (flags >= 0) ok = LIB(mpt::mpt_buffer_set(hb[h], KT, i * ks, d, ks)) >= 0;
@@ -704,6 +701,7 @@ struct BSys {
 		if (o.code == SET && !refused && g_destroyed && ac.find("tail-kept") != std::string::npos) r.count("overwrite in the middle, tail kept");
 		if (o.code == MOVE && ac.find("mismatch") != std::string::npos) { r.count("buffer::move between different element types (accepted or refused)"); r.count(refused ? "buffer::move between different element types: refused" : "buffer::move between different element types: accepted"); }
 		if (o.code == SLICE && g_failed) r.count("array_slice with a failing constructor");
+		if (kind == K_FINI && (o.code == SETOWN || (o.code == SET && o.c))) r.count("finaliser-only elements: array_set with managed source elements (own or foreign)");
 		if (o.code == SETOWN) { r.count("array_set with source elements inside the target array"); r.count(std::string("array_set with own source, ") + ac.substr(11) + (refused ? ": refused" : ": done")); }
 		if (o.code == RESERVE && o.b == 4 && !refused && n) r.count("array_reserve to a type with the same finaliser but another size on a non-empty buffer");
 		if (kind == K_FINI && was_shared && n && (refused || hb[h] != b) && (o.code == SET || o.code == INS || o.code == SLICE || o.code == DETACH)) {
@@ -1300,7 +1298,7 @@ static void requires_(Run &r)
 	                       "elements destroyed by array_reserve", "elements destroyed by detach", "elements destroyed by buffer::copy", "elements destroyed by content::set_length",
 	                       "elements constructed by array_set", "elements constructed by array_insert", "elements constructed by detach", "elements constructed by buffer::copy",
 	                       "injected constructor failures", "shared buffer: elements copy-constructed into a private copy", "overwrite in the middle, tail kept", "gap default-constructed",
-	                       "array_set with source elements inside the target array", "typed_array::insert(value) of an element of the same array",
+	                       "array_set with source elements inside the target array", "finaliser-only elements: array_set with managed source elements (own or foreign)", "typed_array::insert(value) of an element of the same array",
 	                       "buffer::move between different element types (accepted or refused)", "array_slice with a failing constructor",
 	                       "array_reserve to a type with the same finaliser but another size on a non-empty buffer",
 	                       "finaliser-only elements: write through a shared handle (private copy made or refused)",
